@@ -1,3 +1,4 @@
+import GoRedisModel.Proofs.Translated
 import GoRedisModel.Proofs.Total
 /-! # C06 — the parser is total on hostile input -/
 namespace GoRedis
@@ -46,5 +47,19 @@ example : parse 30 b!"$9223372036854775807\r\n" = .err := by
   simp [parse, takeLine, atoi, digitsVal, arrayByte, bulkByte, CR, maxInt, maxBulk]
 example : parse 30 b!"*99999999999999\r\n" = .err := by
   simp [parse, parseElems, takeLine, atoi, digitsVal, arrayByte, bulkByte, CR, maxInt]
+
+/-- **The length test as translated from the current source** (regenerated on every run, §3a of DESIGN.md): in
+`(*Parser).nextLengthBytes` the declared length is compared with the 512 MiB limit *before* anything is computed from it,
+`num + 2` cannot wrap for a length that passed, and the number of bytes then read is the model's `need`; `MaxBulkLength`
+is read from the source's constant declaration -/
+theorem C06_source_bulk_length (num : Int) (h : inInt64 num = true) (h0 : 0 ≤ num) :
+    Translated.bulkReadLength num =
+      if num.toNat > maxBulk then .err "errorTooLongBulkString" else .ok ((num.toNat + 2 : Nat) : Int) :=
+  Translated.bulkReadLength_eq num h h0
+
+example : Translated.bulkReadLength 9223372036854775807 = .err "errorTooLongBulkString" ∧
+    Translated.bulkReadLength 9223372036854775806 = .err "errorTooLongBulkString" ∧
+    Translated.bulkReadLength 536870912 = .ok 536870914 ∧ Translated.bulkReadLength 536870913 = .err "errorTooLongBulkString" := by
+  decide +kernel
 
 end GoRedis
